@@ -270,7 +270,7 @@ def run_oto(case):
                 got = _call(tgt.pop, k)
                 exp = ('ok', m.pop(k)) if k in m else ('exc', 'KeyError')
             else:
-                d = ('dflt', op[4])
+                d = P(op[4])        # may be the very object stored under the key (exposes 'is default' shortcuts)
                 got = _call(tgt.pop, k, d)
                 exp = ('ok', m.pop(k)) if k in m else ('ok', d)
         elif name == 'popitem':
